@@ -26,7 +26,7 @@ mutual
 /-- `PublicKey.VerifyBytes` -/
 def verify : PK → Nat → Sig → Bool
   | .leaf id, m, .leaf s m' => s == id && m == m'
-  | .multi ks, m, .multi ss => ks.length == ss.length && verifyAll ks m ss
+  | .multi ks, m, .multi ss => !ks.isEmpty && ks.length == ss.length && verifyAll ks m ss   -- a key without components verifies nothing
   | _, _, _ => false
 /-- position by position -/
 def verifyAll : List PK → Nat → List Sig → Bool
